@@ -10,11 +10,19 @@ CONSTANTS NStyles,    \* number of style ids ("s1" .. "sN")
           TwoSlots,   \* SpecMC/SpecGen: does slot y vary (TRUE) or stay unset (FALSE)
           YModes,     \* SpecEnum: how slot y's mask relates to slot x's:
                       \*   "free" any, "empty" nowhere, "all" everywhere, "compl" exactly where x is not, "same" where x is
-          TailMode,   \* SpecEnum: what follows Load, Resolve, ToXML, Info on the same queried id:
-                      \*   "none" nothing; "clone" CloneDrop, CloneSwap, Resolve (on the copy), MutRes;
-                      \*   "rmr": the behaviour is Load, Resolve, <every registry-changing operation>, Resolve
-                      \*   (resolution must follow the registry: nothing remembered from an earlier call);
-                      \*   "rmr+clone": both families
+          Kinds,      \* which kinds of alias (StyleInh!AliasKinds) occur as based-on references / queried ids
+          Plans,      \* SpecEnum: the families of behaviours that are enumerated (a set):
+                      \*   "plain": Load, Resolve, ToXML, Info on the same queried id, for every registry and queried id;
+                      \*   "clone": the same followed by CloneDrop, CloneSwap, Resolve (on the copy), MutRes;
+                      \*   "rmr":   Load, Resolve, Clone, <every registry-changing operation>, Resolve,
+                      \*            OnClone(<CloneReads> on the same id), OnClone(Peek), OnClone(<the same change>), OnClone(Peek)
+                      \*            (resolution follows the registry, nothing is remembered from an earlier call; the copy
+                      \*            taken before the change is read for the first time after it and still resolves as
+                      \*            before; the change made to the copy afterwards does not reach the source);
+                      \*   "alias": Load, Resolve, ToXML, Info for every registry in which some style is based on an
+                      \*            alias of a style, queried for every style id and every alias that occurs
+                      \*   "xml":   LoadXML (each loader), Resolve, ToXML, Info: every registry as a styles part
+          CloneReads, \* "rmr": the operations through which the copy is read for the first time (one behaviour each)
           Depth,      \* SpecGen: behaviour length
           OpNames     \* SpecMC/SpecGen: operation names explored
 
@@ -22,21 +30,35 @@ VARIABLES st, hist
 vars == <<st, hist>>
 
 IdSeq == [k \in 1..NStyles |-> "s" \o ToString(k)]   \* order of definition in Load
-TailOps == IF TailMode \in {"clone", "rmr+clone"} THEN <<"CloneDrop", "CloneSwap", "Resolve", "MutRes">> ELSE <<>>
+TailOps == IF "clone" \in Plans THEN <<"CloneDrop", "CloneSwap", "Resolve", "MutRes">> ELSE <<>>
 Ids == {IdSeq[i] : i \in 1..Len(IdSeq)}
+Als == AliasesOf(Kinds, Ids)
 Bs  == Ids \cup {NONE, GHOST}           \* basedOn: any style (self included), none, an undefined id
 Qs  == Ids \cup {GHOST}                 \* queried ids, one of them never defined
+BsA == Bs \cup Als                      \* ... and the aliases of the styles
+QsA == Qs \cup Als
 YB  == IF TwoSlots THEN BOOLEAN ELSE {FALSE}
 
-OpsOf(s) ==
+\* operations on one registry
+BaseOps ==
      (IF "AddStyle" \in OpNames
-        THEN {[op |-> "AddStyle", s |-> i, b |-> b, x |-> x, y |-> y] : i \in Ids, b \in Bs, x \in BOOLEAN, y \in YB} ELSE {})
+        THEN {[op |-> "AddStyle", s |-> i, b |-> b, x |-> x, y |-> y] : i \in Ids, b \in BsA, x \in BOOLEAN, y \in YB} ELSE {})
   \cup (IF "RemoveStyle" \in OpNames THEN {[op |-> "RemoveStyle", s |-> i] : i \in Qs} ELSE {})
-  \cup (IF "Create" \in OpNames THEN {[op |-> "Create", s |-> i, b |-> b] : i \in Ids, b \in Bs} ELSE {})
+  \cup (IF "Create" \in OpNames THEN {[op |-> "Create", s |-> i, b |-> b] : i \in Ids, b \in BsA} ELSE {})
   \cup (IF "Edit" \in OpNames
-        THEN {[op |-> "Edit", s |-> i, b |-> b, x |-> x, y |-> y] : i \in Ids, b \in Bs \cup {"keep"}, x \in BOOLEAN, y \in YB} ELSE {})
-  \cup {[op |-> n, q |-> q] : n \in OpNames \cap {"Resolve", "ToXML", "Info", "MutRes"}, q \in Qs}
+        THEN {[op |-> "Edit", s |-> i, b |-> b, x |-> x, y |-> y] : i \in Ids, b \in BsA \cup {"keep"}, x \in BOOLEAN, y \in YB} ELSE {})
+  \cup {[op |-> n, q |-> q] : n \in OpNames \cap {"Resolve", "ToXML", "Info", "MutRes"}, q \in QsA}
   \cup {[op |-> n] : n \in OpNames \cap (CloneOps \cup {"List"})}
+  \* a styles part that defines one style, through each of the loaders
+  \cup (IF "LoadXML" \in OpNames
+        THEN {[op |-> "LoadXML", how |-> h, defs |-> <<[s |-> i, b |-> b, x |-> x, y |-> (TwoSlots /\ ~x)]>>] :
+                 h \in XmlHows, i \in Ids, b \in Bs, x \in BOOLEAN} ELSE {})
+\* ... and on the pair: take a copy; address an operation to the copy
+OpsOf(s) ==
+       BaseOps
+  \cup (IF "Clone" \in OpNames THEN {[op |-> "Clone"]} ELSE {})
+  \cup (IF "OnClone" \in OpNames /\ s.has
+        THEN {[op |-> "OnClone", o |-> o] : o \in {b \in BaseOps : b.op \in InnerOps} \cup {[op |-> "Peek"]}} ELSE {})
 
 Init == st = InitSt /\ hist = <<>>
 
@@ -46,16 +68,19 @@ SpecMC == Init /\ [][NextMC]_vars
 MCView == st
 
 \* Generation (-simulate picks successors uniformly): queries and clone operations are given the
-\* weight ReadWeight through a dummy field w (ignored by the executor) so that a random prefix mixes
-\* registry changes and queries about evenly; the last operation of a behaviour is always a query or
-\* clone operation (TLC evaluates Emit on every successor, so each random prefix is completed by all
-\* of them).
+\* weight ReadWeight, Clone the weight CloneWeight, through a dummy field w (ignored by the executor) so that
+\* a random prefix mixes registry changes and queries about evenly and most behaviours take a copy early; the
+\* last operation of a behaviour is always a query or clone operation (TLC evaluates Emit on every successor,
+\* so each random prefix is completed by all of them).
 ReadWeight == 4
+CloneWeight == 40
+IsChange(op) == IF op.op = "OnClone" THEN op.o.op \in Mutators ELSE op.op \in Mutators \cup {"Clone"}
+Weighted(op, n) == {[f \in (DOMAIN op) \cup {"w"} |-> IF f = "w" THEN w ELSE op[f]] : w \in 1..n}
 GenOps(s, last) ==
-  IF last THEN {op \in OpsOf(s) : op.op \notin Mutators}
-  ELSE {op \in OpsOf(s) : op.op \in Mutators}
-       \cup {[op |-> n, q |-> q, w |-> w] : n \in OpNames \cap {"Resolve", "ToXML", "Info", "MutRes"}, q \in Qs, w \in 1..ReadWeight}
-       \cup {[op |-> n, w |-> w] : n \in OpNames \cap (CloneOps \cup {"List"}), w \in 1..ReadWeight}
+  IF last THEN {op \in OpsOf(s) : ~IsChange(op)}
+  ELSE {op \in OpsOf(s) : IsChange(op) /\ op.op # "Clone"}
+       \cup UNION {Weighted(op, ReadWeight) : op \in {o \in OpsOf(s) : ~IsChange(o)}}
+       \cup UNION {Weighted(op, CloneWeight) : op \in {o \in OpsOf(s) : o.op = "Clone"}}
 NextGen == /\ Len(hist) < Depth
            /\ \E op \in GenOps(st, Len(hist) = Depth - 1) : st' = Apply(st, op) /\ hist' = Append(hist, op)
 SpecGen == Init /\ [][NextGen]_vars
@@ -63,12 +88,13 @@ SpecGen == Init /\ [][NextGen]_vars
 \* ---- design-level statement of C14 on the reference machine -----------------------
 \* every reachable registry (= every registry over Ids: any basedOn graph with self loops,
 \* cycles, missing parents; any subset of styles defined; every mask) and every queried id
-Inv_Terminates == \A q \in Qs : ChainOK(st.reg, q)
-Inv_Nearest    == \A q \in Qs : NearestOK(st.reg, q)
-Inv_StepLaw    == \A q \in Qs : StepLawOK(st.reg, q)
-Inv_Owner      == \A q \in Qs : OwnerOK(st.reg, q)
-Inv_Found      == \A q \in Qs : Resolve(st.reg, q).found = (q \in DOMAIN st.reg)
+Inv_Terminates == \A q \in QsA : ChainOK(st.reg, q)
+Inv_Nearest    == \A q \in QsA : NearestOK(st.reg, q)
+Inv_StepLaw    == \A q \in QsA : StepLawOK(st.reg, q)
+Inv_Owner      == \A q \in QsA : OwnerOK(st.reg, q)
+Inv_Found      == \A q \in QsA : Resolve(st.reg, q).found = (q \in DOMAIN st.reg)
                                /\ (q \notin DOMAIN st.reg => Chain(st.reg, q) = <<>>)
+Inv_Undef      == \A q \in Ids : UndefParentOK(st.reg, q)
 \* resolving, describing and cloning never change the registry
 Inv_ReadOnly   == \A op \in OpsOf(st) : op.op \in Readers \cup CloneOps => Apply(st, op).reg = st.reg
 
@@ -80,15 +106,34 @@ Consults(reg, q, s) ==
 Act_Frame ==
   [][LET op == hist'[1] IN
         op.op \in {"AddStyle", "RemoveStyle", "Create", "Edit"} =>
-           \A q \in Qs : ~Consults(st.reg, q, op.s) => Resolve(st'.reg, q) = Resolve(st.reg, q)]_vars
+           \A q \in QsA : ~Consults(st.reg, q, op.s) => Resolve(st'.reg, q) = Resolve(st.reg, q)]_vars
 \* resolving, describing and cloning are not transitions of the registry
 Act_ReadOnly ==
-  [][hist'[1].op \in Readers \cup CloneOps => st' = st]_vars
+  [][LET op == hist'[1] IN
+        (op.op \in Readers \cup CloneOps \/ (op.op = "OnClone" /\ op.o.op \in Readers)) => st' = st]_vars
 \* a style's own setting always wins, whatever is done to other styles
 Act_OwnWins ==
   [][\A q \in Ids : q \in DOMAIN st'.reg =>
         /\ (st'.reg[q].x => Owner(st'.reg, q, "x") = q)
         /\ (st'.reg[q].y => Owner(st'.reg, q, "y") = q)]_vars
+\* "a cloned registry is fully independent of its source":
+\* the copy is the registry as it is when Clone is called (every id resolves the same way) ...
+Act_Snapshot ==
+  [][hist'[1].op = "Clone" =>
+        /\ st'.reg = st.reg /\ st'.has /\ st'.cl = st.reg
+        /\ \A q \in QsA : Resolve(st'.cl, q) = Resolve(st.reg, q)]_vars
+\* ... and from then on nothing done to one of the two is seen through the other: every id resolves on the
+\* untouched side as it did before the step, whichever side the step was addressed to
+Act_Isolated ==
+  [][LET op == hist'[1] IN
+        /\ (op.op = "OnClone" => st'.reg = st.reg /\ \A q \in QsA : Resolve(st'.reg, q) = Resolve(st.reg, q))
+        /\ (op.op \notin PairOps => st'.cl = st.cl /\ st'.has = st.has
+                                      /\ \A q \in QsA : Resolve(st'.cl, q) = Resolve(st.cl, q))
+        \* an operation addressed to the copy does to the copy what it would do to any registry
+        /\ (op.op = "OnClone" => st'.cl = ApplyReg(st.cl, op.o) /\ Ret(st, op) = RetReg(st.cl, op.o))]_vars
+\* the copy obeys the same design-level statements as any registry
+Inv_CopySound == st.has => \A q \in QsA : /\ ChainOK(st.cl, q) /\ NearestOK(st.cl, q) /\ StepLawOK(st.cl, q)
+                                            /\ OwnerOK(st.cl, q) /\ UndefParentOK(st.cl, q)
 
 \* ---- enumeration of all inputs: one behaviour per (registry over all of Ids, query) ----
 YOf(xs, m) ==
@@ -99,10 +144,13 @@ YOf(xs, m) ==
     [] m = "same"  -> {xs}
     [] OTHER       -> {}
 
+LoadOf(bs, xs, ys) ==
+  [op |-> "Load", defs |-> [k \in 1..Len(IdSeq) |->
+        [s |-> IdSeq[k], b |-> bs[IdSeq[k]], x |-> xs[IdSeq[k]], y |-> ys[IdSeq[k]]]]]
+PlainOf(bs, xs, ys, q) ==
+  <<LoadOf(bs, xs, ys), [op |-> "Resolve", q |-> q], [op |-> "ToXML", q |-> q], [op |-> "Info", q |-> q]>>
 CaseOf(bs, xs, ys, q) ==
-  <<[op |-> "Load", defs |-> [k \in 1..Len(IdSeq) |->
-        [s |-> IdSeq[k], b |-> bs[IdSeq[k]], x |-> xs[IdSeq[k]], y |-> ys[IdSeq[k]]]]],
-    [op |-> "Resolve", q |-> q], [op |-> "ToXML", q |-> q], [op |-> "Info", q |-> q]>>
+  PlainOf(bs, xs, ys, q)
   \o [k \in 1..Len(TailOps) |-> IF TailOps[k] \in CloneOps THEN [op |-> TailOps[k]] ELSE [op |-> TailOps[k], q |-> q]]
 
 \* registry-changing operations whose y follows the same mode as the enumerated registry
@@ -115,22 +163,41 @@ MutOpsEnum(m) ==
   \cup {[op |-> "Create", s |-> i, b |-> b] : i \in Ids, b \in Bs}
   \cup {[op |-> "Edit", s |-> i, b |-> b, x |-> x, y |-> y] : <<i, b, x, y>> \in
             {t \in Ids \X (Bs \cup {"keep"}) \X BOOLEAN \X BOOLEAN : t[4] \in YFor(t[3], m) /\ (t[2] # "keep" \/ t[3] \/ t[4])}}
-RmrOf(bs, xs, ys, q, mu) ==
-  <<CaseOf(bs, xs, ys, q)[1], [op |-> "Resolve", q |-> q], mu, [op |-> "Resolve", q |-> q]>>
+ReadOf(r, q) == IF r \in {"List", "Peek"} THEN [op |-> r] ELSE [op |-> r, q |-> q]
+RmrOf(bs, xs, ys, q, mu, r) ==
+  <<LoadOf(bs, xs, ys), [op |-> "Resolve", q |-> q], [op |-> "Clone"], mu, [op |-> "Resolve", q |-> q],
+    [op |-> "OnClone", o |-> ReadOf(r, q)], [op |-> "OnClone", o |-> [op |-> "Peek"]],
+    [op |-> "OnClone", o |-> mu], [op |-> "OnClone", o |-> [op |-> "Peek"]]>>
+
+\* based-on graphs in which at least one style refers to its parent by an alias (and none to GHOST: those
+\* graphs are enumerated by "plain")
+AliasGraphs == {bs \in [Ids -> Ids \cup {NONE} \cup Als] : \E i \in Ids : bs[i] \in Als}
+
+RECURSIVE ApplyAll(_, _, _)
+ApplyAll(s, ops, i) == IF i > Len(ops) THEN s ELSE ApplyAll(Apply(s, ops[i]), ops, i + 1)
 
 InitEnum ==
-  \E bs \in [Ids -> Bs], xs \in [Ids -> BOOLEAN], m \in YModes, q \in Qs :
+  \E xs \in [Ids -> BOOLEAN], m \in YModes :
     \E ys \in YOf(xs, m) :
-      /\ \/ /\ TailMode \in {"rmr", "rmr+clone"}
-               /\ q \in Ids /\ \E mu \in MutOpsEnum(m) : hist = RmrOf(bs, xs, ys, q, mu)
-            \/ /\ TailMode # "rmr"
-               /\ hist = CaseOf(bs, xs, ys, q)
-      /\ st = Apply(InitSt, hist[1])
+      /\ \/ /\ "rmr" \in Plans
+            /\ \E bs \in [Ids -> Bs], q \in Ids, mu \in MutOpsEnum(m), r \in CloneReads : hist = RmrOf(bs, xs, ys, q, mu, r)
+         \/ /\ Plans \cap {"plain", "clone"} # {}
+            /\ \E bs \in [Ids -> Bs], q \in Qs : hist = CaseOf(bs, xs, ys, q)
+         \/ /\ "xml" \in Plans
+            /\ \E bs \in [Ids -> Bs], q \in Ids, h \in XmlHows :
+                  hist = <<[op |-> "LoadXML", how |-> h, defs |-> LoadOf(bs, xs, ys).defs]>> \o Tail(PlainOf(bs, xs, ys, q))
+         \/ /\ "alias" \in Plans
+            /\ \E bs \in AliasGraphs : \E q \in Ids \cup {bs[i] : i \in {j \in Ids : bs[j] \in Als}} :
+                  hist = PlainOf(bs, xs, ys, q)
+      /\ st = ApplyAll(InitSt, hist, 1)
 SpecEnum == InitEnum /\ [][UNCHANGED vars /\ FALSE]_vars
 
-\* the expected result is part of what the model checks on every enumerated input
-Inv_EnumSound == \A q \in Qs : /\ ChainOK(st.reg, q) /\ NearestOK(st.reg, q) /\ StepLawOK(st.reg, q) /\ OwnerOK(st.reg, q)
-                               /\ Resolve(st.reg, q).found = (q \in DOMAIN st.reg)
+\* the expected result is part of what the model checks on every enumerated input (st: the state the
+\* behaviour ends in; for "rmr" the changed source and the equally changed copy)
+SoundReg(reg) == \A q \in QsA : /\ ChainOK(reg, q) /\ NearestOK(reg, q) /\ StepLawOK(reg, q) /\ OwnerOK(reg, q)
+                                  /\ UndefParentOK(reg, q)
+                                  /\ Resolve(reg, q).found = (q \in DOMAIN reg)
+Inv_EnumSound == SoundReg(st.reg) /\ (st.has => SoundReg(st.cl) /\ st.cl = st.reg)
 
 \* ---- generation: print each complete behaviour once ---------------------------------
 Emit     == Len(hist) < Depth \/ PrintT(<<"WZCASE", ToJson(hist)>>)
